@@ -316,6 +316,13 @@ static void resume(int p)
 	if (W.hooks.after_run) W.hooks.after_run(p);
 }
 
+/* the process disappears without a word (power loss, kill -9): it is never scheduled again */
+void vw_kill(int p)
+{
+	if (W.cur == p) vw_fatal("vw_kill of the running process");
+	W.proc[p].state = VW_P_EXITED; W.proc[p].exit_code = -9;
+}
+
 int vw_alive(int p)
 {
 	int s = W.proc[p].state;
